@@ -28,7 +28,7 @@ ASSUMPTIONS = [
 
 
 def cfg():
-    return P.GenCfg(nq=4, max_items=9, max_depth=3, p_sub=22, p_rel=45, max_reps=1, globals_=True, global_zero=True,
+    return P.GenCfg(nq=4, max_items=9, max_depth=3, p_sub=22, p_rel=45, max_reps=1, globals_=True, global_zero=True, entry_points=True,
                     p_share=30, max_total_leaves=60, p_dangling=8)
 
 
@@ -84,7 +84,8 @@ def body(case, ctx):
         for p, it in P.iter_items(program["top"]):
             if not P.is_sub(it) and b.handles[p] is not b.passed[p]:
                 ctx.fail("add-return", f"add() did not return the operation it was given (item {list(p)})")
-            if P.is_sub(it) and (b.handles[p] is b.passed[p] or not O.is_composite(b.handles[p])):
+            if P.is_sub(it) and (b.handles[p] is b.passed[p] or b.handles[p] is b.passed[p].circuit_structure
+                                 or not O.is_composite(b.handles[p])):
                 ctx.fail("add-return", f"add() of a sub-circuit did not return a nested copy (item {list(p)})")
         ops = ops_again = None
         with ctx.lib("operations"):
